@@ -129,6 +129,40 @@ claim('C07',
       'site resolution + symbolic pad-form check (exact rational arithmetic) + structural fallback rule',
       'DESIGN.md §4 C07')
 
+ZONAL_NOTE = ('Trusted: np.argsort / np.unique / np.sort semantics (ascending, NaN and +inf last, -inf first), pandas/dask '
+              'frame assembly, and the half-page segment argument in notes/engine_sketches.md whose premises these rules '
+              'decide. User-supplied reducers are not analysed. Rounding of the documented formulas is not decided.')
+claim('C02',
+      'Static analysis of the functions reachable from zonal.stats (numpy path): decides the premises of the segment '
+      'argument for all inputs at once - Z1 the running segment offset is advanced on every iteration; Z2 the zone '
+      'label column has ascending provenance (np.unique / order-preserving filters; request-order lists are '
+      'refuted); Z3 every reducer receives values masked by isfinite & != nodata_values; Z4 zone ids are the finite '
+      'distinct zones; Z4b index-space typing: the stride offsets, the gathered value vector and the permutation live '
+      'in one index space (a filter applied to one of them only is refuted); Z5 NaN-initialised results assigned only '
+      'for non-empty selections; ZS the stride routine skeleton; ZT statistic name -> same-named method; raster '
+      'output scatter uses breaks[iz-1]:breaks[iz].', ZONAL_NOTE,
+      'order/validity/cursor/index-space dataflow rules over the zonal bookkeeping', 'DESIGN.md §4 C02')
+claim('C03',
+      'Static analysis of the dask zonal path: Z6a every per-block partial / cross-block combiner pair is an '
+      'associative merge over the block axis (max/nanmax, min/nanmin, sum|count|sum-of-squares/NaN-ignoring sum); '
+      'Z6b mean, var, std equal s/n, (ss - s^2/n)/n, sqrt of it (exact rational normal form) and their call sites '
+      'bind (sum_squares, sum**2, count) in order; Z6c additive merges keep an all-NaN column NaN; Z6d no arithmetic '
+      'in the raster\'s own dtype before widening; Z7 per-block tasks receive global zone ids and never discover ids '
+      'per block; Z8 crosstab block dicts are summed over all keys of all blocks and normalised after the merge; Z9 '
+      'the positional pairing of zones/values blocks is dominated by a chunk alignment on every dask path; Z2 label '
+      'order; Z4/Z4b shared bookkeeping. Chunking-independence follows from these for every chunk layout.', ZONAL_NOTE,
+      'merge-algebra table check + symbolic formula comparison + path-sensitive alignment dominance',
+      'DESIGN.md §4 C03')
+claim('C04',
+      'Static analysis of the functions reachable from zonal.crosstab (both backends): Z1 the category offset '
+      'advances for every category whether selected or not; Z2 rows are labelled from an order-preserving selection '
+      'of the ascending zones (also through the delayed id-selection helper); Z3 validity mask at every counting / '
+      'aggregation site and in category discovery; counts stored under their own category, count = break[j] - '
+      'previous break, total taken before selection, percentage = count/total*100 after the merge, 3-D aggregate '
+      'looked up by agg, layer j <-> category j; Z4/Z4b shared bookkeeping.', ZONAL_NOTE,
+      'cursor-discipline (post-dominance) + order-provenance dataflow + structural key/percentage rules',
+      'DESIGN.md §4 C04')
+
 ALL = ['C%02d' % i for i in range(1, 20)]
 
 
